@@ -386,7 +386,9 @@ func runSeedGroups(tier string, seed int64) {
 	}
 	// tens of kilobytes of text that is not in normal form (normalising it takes long enough for collections to
 	// complete meanwhile), derived while the collector is kept busy
-	stopGC := gcStorm()
+	stopGC, stopGC2, stopGC3 := gcStorm(), gcStorm(), gcStorm()
+	defer stopGC2()
+	defer stopGC3()
 	jp := norm.NFC.String(sentence(coverSentences(5, r)[0], 5, "　"))
 	for _, kb := range map[string][]int{"quick": {16, 40}, "thorough": {16, 40, 64, 96, 128}}[tier] {
 		unit := "caf\u00e9 na\u00efve \u30ac\uff4b \uac00 "
@@ -470,6 +472,39 @@ func runCheckGroups(tier string, seed int64) {
 			vs := spellings(us, false)
 			vs = append(vs, variant{"nfc+sep3000", norm.NFC.String(strings.Join(ws, "\u3000"))})
 			checkGroup(vs, lang, "unknownword")
+		}
+	}
+	// Chinese sentences with list words typed as code points that DEcompose to them (compatibility ideographs,
+	// Kangxi radicals): same NFKD form as the plain sentence
+	inv := map[string][]string{}
+	for _, rg := range [][2]rune{{0x2E80, 0x2FD5}, {0x3038, 0x303A}, {0xF900, 0xFAFF}, {0x2F800, 0x2FA1D}} {
+		for c := rg[0]; c <= rg[1]; c++ {
+			if d := norm.NFKD.String(string(c)); d != string(c) {
+				inv[d] = append(inv[d], string(c))
+			}
+		}
+	}
+	for _, lang := range []int{0, 1} {
+		cs := coverSentences(lang, r)
+		n := 0
+		for _, idx := range cs {
+			ws := strings.Split(sentence(idx, lang, " "), " ")
+			alt := append([]string(nil), ws...)
+			hit := 0
+			for i, w := range ws {
+				if a := inv[w]; len(a) > 0 {
+					alt[i] = a[r.intn(len(a))]
+					hit++
+				}
+			}
+			if hit == 0 {
+				continue
+			}
+			checkGroup([]variant{{"asis", strings.Join(ws, " ")}, {"compat", strings.Join(alt, " ")}, {"compat+sep3000", strings.Join(alt, "\u3000")},
+				{"nfc(compat)", norm.NFC.String(strings.Join(alt, " "))}}, lang, "compatideograph")
+			if n++; n >= map[string]int{"quick": 12, "thorough": 400}[tier] {
+				break
+			}
 		}
 	}
 	// letters whose case mapping and compatibility decomposition do not commute (capital dotted I, letter-like and
